@@ -119,11 +119,12 @@ class Lst(Val):
 
 
 class Dct(Val):
-    __slots__ = ("items", "shared_name")
+    __slots__ = ("items", "shared_name", "keyvals")
 
     def __init__(self, items=None):
         self.items = dict(items or {})  # python key -> Val
         self.shared_name = None
+        self.keyvals = {}  # python key -> the abstract key value (class refs, enum members ... as keys)
 
     @property
     def tag(self):
@@ -271,6 +272,17 @@ class Bound(Val):
 
     def __repr__(self):
         return f"Bound({self.recv!r}.{self.name})"
+
+
+class Part(Val):
+    """functools.partial(func, *args, **kwargs)"""
+
+    def __init__(self, func, args, kwargs):
+        self.func, self.args, self.kwargs = func, list(args), dict(kwargs)
+
+    @property
+    def tag(self):
+        return f"partial({tagof(self.func)})"
 
 
 class Tpl(Val):
